@@ -394,7 +394,7 @@ Definition is_opt (t : ty) : bool := match t with TOpt _ => true | _ => false en
 (** * The struct visitor generated by [#[derive(Deserialize)]] *)
 Definition fparser := (field * (json -> res rv))%type.
 
-Fixpoint find_field (fps : list fparser) (i : nat) (k : bytes) : option nat :=
+Fixpoint find_field {X} (fps : list (field * X)) (i : nat) (k : bytes) : option nat :=
   match fps with
   | [] => None
   | (f, _) :: r =>
